@@ -29,4 +29,5 @@ for p in "$@"; do
   echo "== check $p against changed tree"
   VERIF_REPO=$WT timeout 1200 ./check $p 2>&1 | grep -E "^VIOLATION|^OK|^KNOWN|broken\[" | cut -c1-400
 done
+cd /verif && ./check --prepare >/dev/null 2>&1
 cd $WT && git checkout -q -- . && git clean -fdq tests src
